@@ -857,6 +857,9 @@ class Interp:
                 if t.attr not in obj._fields:
                     obj._fields.append(t.attr)
                 return
+            if hasattr(obj, "abs_setattr"):
+                obj.abs_setattr(t.attr, v)
+                return
             raise Undecided(f"attribute store on {type(obj).__name__}")
         elif isinstance(t, ast.Starred):
             self.assign(t.value, v, env)
